@@ -106,9 +106,9 @@ def audit(res, prop, leanchecker=False):
     finally:
         shutil.rmtree(d, ignore_errors=True)
     found = {}
-    for m in re.finditer(r"'([^']+)' depends on axioms: \[([^\]]*)\]", out.replace("\n", " ")):
+    for m in re.finditer(r"'(\S+)' depends on axioms: \[([^\]]*)\]", out.replace("\n", " ")):
         found[m.group(1)] = [a.strip() for a in m.group(2).split(",") if a.strip()]
-    for m in re.finditer(r"'([^']+)' does not depend on any axioms", out):
+    for m in re.finditer(r"'(\S+)' does not depend on any axioms", out):
         found[m.group(1)] = []
     for t in thms:
         if t not in found:
@@ -543,3 +543,65 @@ def run_pool(res, binp, seed, total, tag, test="TestScenarios", shards=None):
         k0 = sorted(outs[0]["progs"])[0]
         res.samples.append({"mode": label, "scenario": outs[0]["progs"][k0], "model_verdict": outs[0]["first_accept"]})
     return agg
+
+
+# ----------------------------------------------------------------------------- regenerated access facts (C14, C19)
+
+PKGS = ["queue", "adder", "circuit-breaker", "worker-pool", "retry"]
+
+
+def lean_str(s):
+    return '"' + s.replace("\\", "\\\\").replace('"', '\\"') + '"'
+
+
+def extract_facts(res):
+    """run the go/types extractor on /repo's current working tree; returns (facts, selects, blocking) or None"""
+    s = scratch_dir()
+    hdst = os.path.join(s, "h_facts")
+    shutil.rmtree(hdst, ignore_errors=True)
+    shutil.copytree(os.path.join(HARNESS, "facts"), hdst)
+    binp = os.path.join(s, "bin_facts")
+    rc, out = sh(["go", "build", "-o", binp, "."], cwd=hdst, env=GOENV, timeout=600)
+    if rc != 0:
+        res.add(Problem("correspondence", "facts extractor does not build", out[-1000:]))
+        return None
+    facts, selects, blocking = [], [], []
+    for pkg in PKGS:
+        rc, out = sh([binp, os.path.join(REPO, pkg)], cwd=REPO, env=GOENV, timeout=600)
+        if rc != 0 or "typecheck:" in out:
+            res.add(Problem("correspondence", f"facts extractor failed on package {pkg} (does the working tree type-check?)", out[-1000:]))
+            return None
+        for line in out.split("\n"):
+            f = line.split("\t")
+            if f[0] == "FACT":
+                locks = [tuple(x.rsplit(":", 1)) for x in f[5].split(",") if x]
+                facts.append({"field": f"{f[1]}/{f[2]}", "fn": f[3], "kind": f[4], "locks": locks, "pos": f[6].replace(REPO + "/", "")})
+            elif f[0] == "SELECT":
+                selects.append({"pkg": f[1], "pos": f[2].replace(REPO + "/", ""), "default": f[3] == "true"})
+            elif f[0] == "BLOCKING":
+                blocking.append({"pkg": f[1], "pos": f[2].replace(REPO + "/", ""), "what": f[3]})
+    return facts, selects, blocking
+
+
+def check_facts(res, facts, fields_filter=None):
+    """generate Facts.lean from the regenerated facts and let Lean decide `Disciplined table facts`"""
+    d = os.path.join(scratch_dir(), "gen")
+    os.makedirs(d, exist_ok=True)
+    sel = [f for f in facts if fields_filter is None or fields_filter(f["field"])]
+    rows = []
+    for f in sel:
+        locks = "[" + ", ".join(f"({lean_str(l)}, .{m})" for l, m in f["locks"]) + "]"
+        rows.append(f"  ⟨{lean_str(f['field'])}, {lean_str(f['fn'])}, .{f['kind']}, {locks}, {lean_str(f['pos'])}⟩")
+    src = ("import Garr.Disc.Table\nopen Garr.Disc\nnamespace Garr.Disc.Generated\n"
+           "def facts : List Fact := [\n" + ",\n".join(rows) + "\n]\n"
+           "#eval (offending table facts).map (fun f => s!\"OFFENDING {f.field} | {f.fn} | {repr f.kind} | {f.locks.map (·.1)} | {f.pos}\")\n"
+           "#eval s!\"COVERED {Covered table facts}\"\n"
+           "theorem facts_disciplined : Disciplined table facts = true := by decide +kernel\n"
+           "#print axioms facts_disciplined\n"
+           "end Garr.Disc.Generated\n")
+    path = os.path.join(d, "Facts.lean")
+    open(path, "w").write(src)
+    rc, out = sh(["lake", "env", "lean", path], cwd=LEAN, timeout=1800)
+    offending = re.findall(r"OFFENDING ([^\"\]]+)", out)
+    ok = rc == 0 and not offending and "COVERED true" in out
+    return ok, offending, out, len(sel)
